@@ -326,7 +326,7 @@ def forward(check, prog):
     want = intern(('bin', '*', ('attr', s, 'prefactor'),
                    ('call', ('attr', s, 'func'),
                     (sym('par_vals'), ('attr', s, 'data'), ('attr', s, 'pixels')), ())))
-    check.require(res.ret == want, 'P6-lnpost-wrapper', 'LnpostWrapper.evaluate',
+    check.require(Canon().equal(res.ret, want), 'P6-lnpost-wrapper', 'LnpostWrapper.evaluate',
                   'prefactor * func(par_vals, data, pixels)',
                   prog.loc(q, prog.func(q + '.evaluate')),
                   fail_detail='returns %s' % show(res.ret)[:160])
